@@ -4,6 +4,7 @@ import (
 	"bytes"
 	"errors"
 	"fmt"
+	"net"
 	"strings"
 	"time"
 
@@ -110,7 +111,7 @@ func c09SlotProbe(c *run.Ctx) {
 		return
 	}
 	// a reference: how many requests fit at once on a client that never saw a denial
-	fit := func(y *c09Client) (accepted, refused int, other error) {
+	fit := func(y *c09Client, whileFull func()) (accepted, refused int, other error) {
 		y.w.Mu.Lock()
 		y.w.Broker.AckPolicy = func(b *sim.Broker, cn *sim.Conn, p *wire.Packet, reply []byte) string { return "hold" }
 		y.w.Mu.Unlock()
@@ -160,6 +161,9 @@ func c09SlotProbe(c *run.Ctx) {
 				other = e
 			}
 		}
+		if whileFull != nil {
+			whileFull()
+		}
 		close(quit)
 		for i := len(early); i < n; i++ {
 			select {
@@ -173,9 +177,18 @@ func c09SlotProbe(c *run.Ctx) {
 	if ref == nil {
 		return
 	}
-	refAccepted, _, refErr := fit(ref)
+	refAccepted, _, refErr := fit(ref, nil)
 	ref.close()
-	accepted, refused, err := fit(x)
+	// with every slot taken an invalid argument is still an invalid argument
+	accepted, refused, err := fit(x, func() {
+		for _, d := range denials {
+			if e := d.call(); e == nil || !mqtt.IsDeny(e) {
+				x.violate("invalid-argument-not-denied", fmt.Sprintf("%s with all request slots taken: got %v, want an IsDeny error", d.name, e), nil)
+				return
+			}
+		}
+		c.Count("denials_with_all_slots_taken", len(denials))
+	})
 	if refErr != nil || err != nil {
 		c.Inconclusive(fmt.Sprintf("slot probe met an unexpected error: %v / %v", refErr, err))
 		return
@@ -593,6 +606,33 @@ func checkConfig(c *run.Ctx, cc configCase) {
 			}
 		}
 		w.Mu.Unlock()
+		// the same refusal from AdoptSession, on a session in need of repair:
+		// a constructor that refuses its Config repairs nothing
+		w2 := sim.NewWorld(c.Rng.Int63())
+		defer w2.Shutdown()
+		cfg2 := cc.Cfg
+		cfg2.Dialer = w2.Dialer()
+		cfg2.PauseTimeout = time.Hour
+		var id []byte
+		for _, b := range mqtt.VerifEncodeValue(net.Buffers{[]byte("c09-adopt")}, 1) {
+			id = append(id, b...)
+		}
+		w2.Store.Plant(map[uint][]byte{0: id, 0x8000: []byte("not a record at all"), 0x8001: []byte("nor is this one")})
+		cl2, _, fatal := mqtt.AdoptSession(w2.Store, &cfg2)
+		if fatal == nil {
+			// (the Config is fine; it was the client identifier that got refused)
+			cl2.Close()
+			return
+		}
+		w2.Mu.Lock()
+		for _, op := range w2.Store.Ops {
+			if op.Op == "save" || op.Op == "delete" {
+				c.Violate("refused-constructor-touched-persistence", fmt.Sprintf("AdoptSession: %s: refused with %q after %s(%#x)", cc.Desc, fatal, op.Op, op.Key), nil)
+				break
+			}
+		}
+		w2.Mu.Unlock()
+		c.Count("adoptions_refused_for_their_config", 1)
 		return
 	}
 	if err != nil {
